@@ -959,7 +959,7 @@ func (r *runner) scenario(rec *kit.Recorder, idx int, kind, api string, ps int) 
 }
 
 func (r *runner) drive(rec *kit.Recorder) {
-	n := r.env.Pick(36, 300)
+	n := r.env.Pick(36, 200)
 	apis := []string{"reader", "bytes"}
 	for i := 0; i < n && r.rep.Violations() < 5; i++ {
 		kind := "msg"
